@@ -168,6 +168,8 @@ TrService ==
      ELSE TRUE
   /\ UNCHANGED <<cur, st, refbad>>
 
+\* the address the WSDL's port gives (a text id of the vocabulary), character for character
+DeclaredAddr == Voc.texts[cur.case.files[1].wsdl.address]
 ScriptOf(e) == IF e.kind = "reply" THEN [k |-> "reply", status |-> e.status, body |-> e.body] ELSE [k |-> e.kind]
 \* an operation without output has no envelope to parse: any 2xx reply is a success
 Expect(e) == LET o == Outcome(e.violates, e.creds, ScriptOf(e)) IN
@@ -197,7 +199,7 @@ TrCall ==
        [] P = "C07" -> (IF ev.violates THEN Report({v \in CallViol(ev) : v.clause \in {"result", "connections", "one_post"}}) /\ Count1 ELSE TRUE)
        [] P = "C05" -> (IF ev.posts >= 1
                         THEN Report((IF ev.path = "/zv/items" THEN {} ELSE {V("posts_to_service_address", ev.op, "/zv/items", ev.path)})
-                                    \cup (IF ev.declared = Voc.texts.addr THEN {} ELSE {V("address_of_wsdl_port", ev.op, Voc.texts.addr, ev.declared)}))
+                                    \cup (IF ev.declared = DeclaredAddr THEN {} ELSE {V("address_of_wsdl_port", ev.op, DeclaredAddr, ev.declared)}))
                         ELSE TRUE)
        [] OTHER -> TRUE
   /\ UNCHANGED <<cur, st, refbad>>
